@@ -92,29 +92,40 @@ class PrintUsingFormatter:
             p if len(p) == 3 else (p + ({},))
             for p in self.fmt_parts
         ]
+        if values and all(p[0] == 'non' for p in fmt_parts):
+            raise RuntimeError('Format string has no fields.')
+
         output = ''
         i = 0
-        for (fmt_type, fmt, options) in fmt_parts:
-            if fmt_type != 'non' and i >= len(fmt_parts):
-                raise RuntimeError('Not enough values.')
+        while True:
+            for (fmt_type, fmt, options) in fmt_parts:
+                if fmt_type == 'non':
+                    output += fmt
+                    continue
 
-            if fmt_type == 'non':
-                output += fmt
-            elif fmt_type == 'str':
-                if not isinstance(values[i], str):
-                    raise RuntimeError('Type mismatch.')
-                output += values[i][0] if fmt == '!' else values[i]
-                i += 1
-            elif fmt_type == 'num':
-                output += self.format_number(fmt, values[i], options)
-                i += 1
-            else:
-                assert False
+                if i >= len(values):
+                    # out of values: stop at the first unused field
+                    return output
 
-        if i < len(values):
-            raise RuntimeError('Too many values.')
+                if fmt_type == 'str':
+                    if not isinstance(values[i], str):
+                        raise RuntimeError('Type mismatch.')
+                    if fmt == '!' and not values[i]:
+                        raise RuntimeError('Empty string for "!" field.')
+                    output += values[i][0] if fmt == '!' else values[i]
+                    i += 1
+                elif fmt_type == 'num':
+                    if isinstance(values[i], str):
+                        raise RuntimeError('Type mismatch.')
+                    output += self.format_number(fmt, values[i], options)
+                    i += 1
+                else:
+                    assert False
 
-        return output
+            if i >= len(values):
+                return output
+
+            # more values than fields: the format string is used again
 
 
     def format_number(self, fmt, value, options):
